@@ -264,6 +264,10 @@ def main(argv=None):
         else:
             raise
     finally:
+        if store is None:
+            # subcommands that load the jugfile themselves (execute, status,
+            # ...) leave their store here
+            store = task.Task.store
         if store is not None:
             store.close()
     sys.exit(retval)
